@@ -466,6 +466,15 @@ func (w *Worker) doTask(
 			))
 			ce.Suggestion = "this pipeline needs a full restart to reopen the shared destination with a " +
 				"fresh ack stream; the underlying error that poisoned it should be visible earlier in the logs"
+			if taskNode.poisonFatal {
+				// This error races the root cause to the pipeline's tomb (both
+				// workers report right after Do returns) and the first one
+				// decides whether the pipeline degrades or recovers. It is only
+				// collateral damage, so it must classify like its cause: a
+				// pipeline that failed for a fatal reason must not be restarted
+				// because the sibling's report happened to arrive first.
+				return cerrors.FatalError(ce)
+			}
 			return ce
 		}
 	}
@@ -495,6 +504,7 @@ func (w *Worker) doTask(
 		// already blocked on sharedMu.Lock() is a race (see the Load's doc
 		// above); the poison flag is what closes the window regardless of
 		// that race's outcome.
+		taskNode.poisonFatal = cerrors.IsFatalError(err)
 		taskNode.poisoned.Store(true)
 	}
 
@@ -1083,6 +1093,9 @@ type TaskNode struct {
 	// full pipeline restart, which builds a brand new TaskNode (and
 	// therefore a fresh, unpoisoned flag) from scratch.
 	poisoned atomic.Bool
+	// poisonFatal records whether the error that poisoned the subtree was
+	// fatal. Written and read under sharedMu, like the poisoned check.
+	poisonFatal bool
 }
 
 // MarkSharedBoundary marks t as the entry point into a subtree shared by
